@@ -191,10 +191,22 @@ pub mod native {
             let mut skipped = 0u64;
             let mut bad_runs = 0u64;
             RANDOM_MISSING.with(|r| *r.borrow_mut() = true);
+            // optional: a partial witness (solver trace that omitted some inputs) to be completed
+            let pinned: Vec<(String, i128)> = match args.get(5) {
+                Some(pth) => std::fs::read_to_string(pth)
+                    .unwrap_or_default()
+                    .lines()
+                    .filter_map(|l| l.split_once('=').and_then(|(k, v)| v.trim().parse::<i128>().ok().map(|v| (k.trim().to_owned(), v))))
+                    .collect(),
+                None => Vec::new(),
+            };
             for i in 0..n {
                 reset();
                 seed(seed0.wrapping_mul(0x100000001B3).wrapping_add(i));
                 set("bg", ((i % 3) + 2) as i128);
+                for (k, v) in pinned.iter() {
+                    set(k, *v);
+                }
                 let p = run_one(f);
                 let assumed = ASSUME_FAILED.with(|f| !f.borrow().is_empty());
                 if assumed && p.is_none() {
@@ -205,7 +217,7 @@ pub mod native {
                 let bad = FAILS.with(|f| !f.borrow().is_empty()) || p.is_some();
                 if bad {
                     bad_runs += 1;
-                    if bad_runs <= 3 {
+                    if bad_runs <= (if pinned.is_empty() { 3 } else { 40 }) {
                         println!("CASE {}", i);
                         report(p);
                         dump_wit();
